@@ -245,10 +245,9 @@ def _factor_long_intermediate(expr: e.Expr, itmd: list[EriOrbenergy],
                 remainder_indices = set(remainder.idx)
                 if any(s in remainder_indices
                        for s in contracted_itmd_indices):
-                    raise RuntimeError("Invalid contracted itmd indices "
-                                       f"{contracted_itmd_indices} found "
-                                       "that also appear in the remainder:\n"
-                                       f"{remainder}")
+                    # the variant is not valid: a contracted itmd index would
+                    # remain in the remainder after factoring the itmd
+                    continue
 
                 # - minimize the indices of the intermediate to ensure that
                 #   the same indices are used in each term of the long itmd
@@ -435,6 +434,21 @@ def _factor_short_intermediate(expr: e.Expr, itmd: EriOrbenergy,
         if variants is None:
             factored += term.expr
             continue
+
+        # only variants where none of the contracted itmd indices remains
+        # in the remainder of the term are valid
+        valid_variants = []
+        for var in variants:
+            remainder_indices = set(
+                _get_remainder(term, var['eri_i'], var['denom_i']).idx
+            )
+            if not any(var['sub'].get(s, s) in remainder_indices
+                       for s in itmd_contracted_symbols):
+                valid_variants.append(var)
+        if not valid_variants:
+            factored += term.expr
+            continue
+        variants = valid_variants
 
         # choose the variant with the lowest overlap to other variants
         #  - find all unique obj indices (eri and denom)
